@@ -72,6 +72,7 @@ class FuncContract:
         self.nowrap = False
         self.skip_frame = False
         self.calls = []   # call-site obligations: (callee pattern, Clause)
+        self.call_ensures = []   # call-site assumptions about callee results: (pattern, Clause)
         self.seeds = []   # (param, Go expression) extra replay candidates
         self.seed_helpers = []
         self.seed_imports = {}
@@ -324,13 +325,18 @@ def parse_file(path, cs, repo='/repo', default_pkg=None):
                 cur.modifies.append(mk(part))
         elif kw == 'call':
             # call <callee-substring> requires <expr>
-            mm = re.match(r'^(\S+)\s+requires(\[[^\]]*\])?\s+(.*)$', rest)
+            mm = re.match(r'^(\S+)\s+(requires|ensures)(\[[^\]]*\])?\s+(.*)$', rest)
             if not mm:
                 raise ValueError('%s:%d: bad call clause' % (path, n))
-            c = mk(mm.group(3), mm.group(2)[1:-1] if mm.group(2) else None)
-            if c.label is None:
-                c.label = str(len(cur.calls) + 1)
-            cur.calls.append((mm.group(1), c))
+            c = mk(mm.group(4), mm.group(3)[1:-1] if mm.group(3) else None)
+            if mm.group(2) == 'ensures':
+                if c.label is None:
+                    c.label = str(len(cur.call_ensures) + 1)
+                cur.call_ensures.append((mm.group(1), c))
+            else:
+                if c.label is None:
+                    c.label = str(len(cur.calls) + 1)
+                cur.calls.append((mm.group(1), c))
         elif kw == 'loop':
             mm = re.match(r'^(\d+)\s+([a-z]+)(\[[^\]]*\])?\s*(.*)$', rest)
             if not mm:
